@@ -324,6 +324,103 @@ pub fn oracle(c: &Case) -> Verdict {
         .class(format!("victim_inflight{}", on_victim.len().min(4))))
 }
 
+// ------------------------------------------------------------------ saturated connection
+
+#[derive(Debug, Clone, Serialize, Deserialize)]
+pub struct SatCase {
+    pub fault: FaultKind,
+    /// requests issued beyond the 32 768 a connection can have in flight
+    pub extra: u8,
+}
+
+/// Every stream id of the connection is taken by a request in flight when the fault strikes.
+pub fn saturated_oracle(c: &SatCase) -> Verdict {
+    const STREAMS: usize = 32_768;
+    let spec = EnvSpec {
+        nodes: simple_nodes(1, None, false),
+        configure: Box::new(|b| b.pool_size(PoolSize::PerHost(NonZeroUsize::new(1).unwrap())).keepalive_interval(Duration::from_millis(150)).keepalive_timeout(Duration::from_millis(300))),
+        ..Default::default()
+    };
+    let env = build_env(&spec, hash_of(&format!("{c:?}"))).map_err(|m| bad("harness_env", m))?;
+    let marker = new_marker();
+    let arrived = Arc::new(Mutex::new(Vec::<(u64, u64)>::new())); // (hold id, conn)
+    let open = Arc::new(AtomicBool::new(false));
+    {
+        let (marker, arrived, open) = (marker.clone(), Arc::clone(&arrived), Arc::clone(&open));
+        let next = AtomicU64::new(1);
+        env.mock.set_brain(Arc::new(move |ctx, frame| match &frame.body {
+            ReqBody::Query { text, .. } if text.contains(&marker) => {
+                if open.load(Ordering::SeqCst) {
+                    return Action::Default;
+                }
+                let id = next.fetch_add(1, Ordering::SeqCst);
+                arrived.lock().unwrap().push((id, ctx.conn));
+                Action::Hold(id)
+            }
+            _ => Action::Default,
+        }));
+    }
+    let session = Arc::clone(&env.session);
+    let mock = &env.mock;
+    // a few more than fit: the driver's keep-alive may hold one id at any moment
+    let n = STREAMS + 8 + c.extra as usize % 4;
+    let text = format!("INSERT INTO ks.t (a) VALUES (1) {marker}");
+    let r = env.rt.block_on(async {
+        let mut handles = Vec::with_capacity(n);
+        for _ in 0..n {
+            let (s, t) = (Arc::clone(&session), text.clone());
+            handles.push(tokio::spawn(async move { s.query_unpaged(t, ()).await.map(|_| ()).map_err(|e| e.to_string()) }));
+        }
+        if !wait_until(Duration::from_secs(60), || arrived.lock().unwrap().len() >= STREAMS - 8).await {
+            return Err(format!("only {} of {STREAMS} requests reached the node within 60 s", arrived.lock().unwrap().len()));
+        }
+        let victim = arrived.lock().unwrap()[0].1;
+        let on_victim = arrived.lock().unwrap().iter().filter(|(_, c)| *c == victim).count();
+        let log_mark = mock.log_len();
+        let t_fault = Instant::now();
+        match c.fault {
+            FaultKind::Fin => mock.kill_conn(victim, false),
+            FaultKind::Rst => mock.kill_conn(victim, true),
+            _ => mock.mute_conn(victim),
+        }
+        open.store(true, Ordering::SeqCst);
+        let mut hung = 0usize;
+        let mut ok = 0usize;
+        let deadline = Instant::now() + D;
+        for h in handles {
+            let left = deadline.saturating_duration_since(Instant::now()).max(Duration::from_millis(1));
+            match tokio::time::timeout(left, h).await {
+                Ok(Ok(Ok(()))) => ok += 1,
+                Ok(Ok(Err(_))) => {}
+                Ok(Err(e)) => return Err(format!("caller task failed: {e}")),
+                Err(_) => hung += 1,
+            }
+        }
+        let took = t_fault.elapsed();
+        let reconnected = wait_until(D, || mock.log()[log_mark..].iter().any(|e| matches!(e.kind, LogKind::ConnOpened))).await;
+        let mut follow_ok = false;
+        let follow_deadline = Instant::now() + D;
+        while Instant::now() < follow_deadline {
+            match tokio::time::timeout(D, session.query_unpaged(format!("SELECT a FROM ks.t {}", new_marker()), ())).await {
+                Ok(Ok(_)) => {
+                    follow_ok = true;
+                    break;
+                }
+                Err(_) => break,
+                Ok(Err(_)) => tokio::time::sleep(Duration::from_millis(50)).await,
+            }
+        }
+        Ok((on_victim, hung, ok, took, reconnected, follow_ok))
+    });
+    let (on_victim, hung, ok, took, reconnected, follow_ok) = r.map_err(|e| bad("harness_e2e", e))?;
+    vassert!(hung == 0, "request_hangs", "{hung} of {n} requests were still waiting {D:?} after the node {} with all {on_victim} stream ids of the connection in flight", match c.fault { FaultKind::Fin => "closed the connection", FaultKind::Rst => "reset the connection", _ => "went silent (keep-alive 150 ms / 300 ms)" });
+    // requests that were in flight on the dead connection were never answered: none of them may report success
+    vassert!(ok <= n - on_victim, "success_without_answer", "{ok} requests succeeded although only {} were not in flight on the dead connection", n - on_victim);
+    vassert!(reconnected, "not_reconnected", "no new connection was opened within {D:?}");
+    vassert!(follow_ok, "session_unusable", "no follow-up request succeeded within {D:?}");
+    Ok(CaseInfo::new(true).class(format!("{:?}", c.fault)).class(format!("failed_within_{}s", took.as_secs().min(10))))
+}
+
 pub fn case() -> BoxedStrategy<Case> {
     (
         proptest::collection::vec((prop_oneof![3 => Just(ReqKind::Query), 2 => Just(ReqKind::Execute), 1 => Just(ReqKind::Batch)], any::<bool>()), 1..=8),
@@ -345,15 +442,28 @@ pub fn case() -> BoxedStrategy<Case> {
 }
 
 pub fn run(ctx: &Ctx, rep: &mut Report) {
-    rep.rule = "Cases: 1..8 requests in flight (query / execute / batch, idempotent or not) on a 2-node mock cluster with one connection per node; the node holding most of them answers j of them completely and then fails: FIN or RST after writing a prefix of the next response frame (offset anywhere in the frame, biased to the 9 header bytes, 0 = between frames), a garbage header, a header with version 0x03/0x85/0x04/0x00, a complete frame on a stream nobody waits for, or a silent stall with keep-alive 100 ms / 200 ms; the fault fires after all requests arrived or after the first 1..3. Oracle: every caller completes within 10 s; a caller that gets rows gets its own marker; requests whose response was completely written succeed; a non-idempotent request outstanding on the dead connection fails and no second frame for it appears anywhere; an idempotent one may succeed only through a second frame; a follow-up request succeeds and the node is reconnected within 10 s. Non-trivial = >= 2 requests in flight on the dying connection and the cut strictly inside a frame.".into();
+    rep.rule = "Cases: 1..8 requests in flight (query / execute / batch, idempotent or not) on a 2-node mock cluster with one connection per node; the node holding most of them answers j of them completely and then fails: FIN or RST after writing a prefix of the next response frame (offset anywhere in the frame, biased to the 9 header bytes, 0 = between frames), a garbage header, a header with version 0x03/0x85/0x04/0x00, a complete frame on a stream nobody waits for, or a silent stall with keep-alive 100 ms / 200 ms; the fault fires after all requests arrived or after the first 1..3. Oracle: every caller completes within 10 s; a caller that gets rows gets its own marker; requests whose response was completely written succeed; a non-idempotent request outstanding on the dead connection fails and no second frame for it appears anywhere; an idempotent one may succeed only through a second frame; a follow-up request succeeds and the node is reconnected within 10 s. saturated: the same with all 32 768 stream ids of a connection in flight (so that the driver's own keep-alive cannot obtain a stream id) under FIN / RST / silent stall. Non-trivial = >= 2 requests in flight on the dying connection and the cut strictly inside a frame.".into();
     rep.trusted_base = vec!["mock cluster (vkit::mock, reference codec), real loopback TCP".into()];
     rep.assumptions = vec![
         "liveness is decided as completion within 10 s (normal: milliseconds; keep-alive case: < 1 s)".into(),
         "scheduling inside the driver's router task is whatever tokio does (sampled, not enumerated)".into(),
     ];
     if let Some((check, case_v)) = &ctx.replay {
-        replay_case::<Case, _>(rep, check, case_v, oracle);
+        if check == "saturated" {
+            replay_case::<SatCase, _>(rep, check, case_v, saturated_oracle);
+        } else {
+            replay_case::<Case, _>(rep, check, case_v, oracle);
+        }
         return;
     }
     run_prop_par(rep, "faults", ctx.tier.pick(480, 40_000), 8, case, oracle);
+    // all 32 768 stream ids of the connection in flight when the fault strikes
+    let mut st = Stats::default();
+    let mut fails = vec![];
+    for rep_i in 0..ctx.tier.pick(1u8, 6) {
+        for fault in [FaultKind::SilentStall, FaultKind::Fin, FaultKind::Rst] {
+            eval_direct(&mut st, &mut fails, &SatCase { fault, extra: rep_i }, saturated_oracle);
+        }
+    }
+    finish_direct(rep, "saturated", st, fails, false);
 }
